@@ -211,7 +211,9 @@ def w_post(case):
                      'point (%s)' % lab, 'expected': 'finite', 'observed': gots,
                      'behaviour': 'nonfinite'})
         return {'transitions': ntr, 'outcome': 'nonfinite', 'violations': viol}
-    if abs(diffs[0] - diffs[1]) > 1e-8 * max(1, abs(gots[0])):
+    # (relative to the larger of the two scores: kernel filters with two nearly
+    # coinciding simulated values reach 1e7 at one point and 1 at the other)
+    if abs(diffs[0] - diffs[1]) > 1e-8 * max(1, abs(gots[0]), abs(gots[1])):
         viol.append({'sub': 'value', 'message': 'log-posterior is not prior + '
                      'population + noise + filter up to a constant (%s): offsets '
                      'at two points differ' % lab, 'expected': diffs[0],
@@ -226,7 +228,7 @@ def w_post(case):
         e_m = float(np.real(ref_total(case, x_obj.copy())))
         ntr += 1
         if np.isfinite(g_m) and np.isfinite(e_m) and \
-                abs((g_m - g0) - (e_m - e0)) > 1e-8 * max(1, abs(g0)):
+                abs((g_m - g0) - (e_m - e0)) > 1e-8 * max(1, abs(g0), abs(g_m)):
             viol.append({'sub': 'inplace', 'message': 'after entry %d of the SAME '
                          'array object was changed in place the log-posterior does '
                          'not move like the reference (%s)' % (k_, lab),
